@@ -62,6 +62,49 @@ def decremented_from(b, fl, op, k):
     return False
 
 
+def decremented_in_closure(f, parent, pfl, cb, op, ku):
+    """`op` (an argument of a call inside closure body cb) is  <captured variable> - c  (c >= 1), and the captured variable is the
+    parent's parameter ku (captured by reference or by value)"""
+    cfl = Flow(cb)
+    l = F.op_local(op)
+    if l is None:
+        return False
+    for a in cfl.origins(l):
+        lhs = None
+        if a[0] == "binop" and a[1].startswith("Sub") and (F.const_int(a[3][3]) or 0) >= 1:
+            lhs = a[3][2]
+        elif a[0] == "call" and last_seg(a[1]) in ("checked_sub", "saturating_sub") and (F.const_int(a[3]["args"][1]) or 0) >= 1:
+            lhs = a[3]["args"][0]
+        if lhs is None:
+            continue
+        # which captured variable?  follow copies back to a place  (*_1).k ...
+        pl = F.op_place(lhs)
+        pl = list(pl) if pl else None
+        hops = 0
+        while pl is not None and pl[0] != 1 and hops < 8:
+            hops += 1
+            ds = cfl.defs.get(pl[0], [])
+            if len(ds) != 1 or ds[0][0] != "assign" or ds[0][2][0] not in ("use", "ref"):
+                break
+            src = F.op_place(ds[0][2][1]) if ds[0][2][0] == "use" else ds[0][2][1]
+            if src is None:
+                break
+            pl = list(src) + pl[1:]
+        if not pl or pl[0] != 1:
+            continue
+        idx = [e[1] for e in pl[1:] if e[0] == "field"]
+        if not idx:
+            continue
+        k = idx[0]
+        # the closure literal in the parent
+        for i, j, st in F.stmts(parent):
+            if st[0] == "assign" and st[2][0] == "aggregate" and st[2][1].get("k") == "closure" and st[2][1].get("closure") == cb["id"] and k < len(st[2][2]):
+                cl = F.op_local(st[2][2][k])
+                if cl is not None and pfl.derives_from_arg(cl, ku):
+                    return True
+    return False
+
+
 class Rec:
     def __init__(self, f, universe):
         self.f = f
@@ -98,14 +141,16 @@ class Rec:
         if kind == "get":
             return "guard"
         caller = self.inst.nodes[k]["body"]
-        if tested and via == caller:
+        if tested:
             t = self.call_term(via, bb)
             cb = self.f.bodies[caller]
             fl = self.flow(caller)
             ints = [kk for kk in range(1, cb["argc"] + 1) if cb["locals"][kk]["s"] in ("usize", "u32", "u8", "u16", "u64")]
             for a in t["args"]:
                 for ku in ints:
-                    if decremented_from(cb, fl, a, ku):
+                    if via == caller and decremented_from(cb, fl, a, ku):
+                        return "budget"
+                    if via != caller and via.startswith(caller + "::{closure#") and decremented_in_closure(self.f, cb, fl, self.f.bodies[via], a, ku):
                         return "budget"
         return None
 
